@@ -1,4 +1,5 @@
 import CpModel.UrlEnc
+import CpModel.UrlEncReq
 import CpModel.Gen.C03Tables
 /-!
   C03: the finite facts regenerated from the live cherrypy modules on every run
@@ -17,6 +18,20 @@ theorem tables_imagemap_pattern :
 theorem tables_defaults :
     defaultAttemptCharsets = ["utf-8"] ∧ attemptCharsets none none = [Charset.utf8] ∧
     queryStringEncoding = "utf8" ∧ methodsWithBodies = ["POST", "PUT", "PATCH"] := ⟨rfl, rfl, rfl, rfl⟩
+
+def procName : Proc → String
+  | .urlencoded => "process_urlencoded"
+  | .formData => "process_multipart_form_data"
+  | .oldMultipart => "_old_process_multipart"
+  | .partsOnly => "process_multipart"
+  | .unread => "default_proc"
+
+/-- The processor table the model selects from is the one a live `RequestBody` carries; a multipart part
+    tries US-ASCII then UTF-8; without a Content-Type header the media type is `''`. -/
+theorem tables_processors :
+    (defaultProcessors.map fun kp => (String.ofList kp.1, procName kp.2)) = requestBodyProcessors ∧
+    partAttemptCharsets = ["us-ascii", "utf-8"] ∧ partAttempts none = [Charset.ascii, Charset.utf8] ∧
+    defaultContentType = "" := by decide
 
 /-- The model's bytes `unquote_plus` agrees with the real one on every `%X`. -/
 theorem tables_body_pct1 :
